@@ -115,6 +115,43 @@ def run_stall(ctx):
                         f"pings={pings} pongs={pongs_of(sc)} report={rep} (iv={sc['iv']}, to={sc['to']})", size=appcheck.size_of(sc))
 
 
+def run_external(ctx):
+    """the same silent / responsive peers under an external (rel-style) dispatcher: timers are re-armed only while
+    their callback returns a true value.  Real runs + the bound; how the loss is HANDLED there is C15's business
+    (finding F16: the exception escapes the dispatcher callback) — here only: is the silence noticed in time."""
+    scs = []
+    for iv, to in ((5 * TPS, 2 * TPS), (3 * TPS, TPS), (6 * TPS, 2 * TPS)):
+        for lats in ([INF], [1, INF], [1, 1, INF]):
+            sc = ka_scenario(iv, to, lats, tail_responsive=False)
+            sc.update(ext=True, kind="ka-external", horizon=(len(lats) + 4) * iv)
+            sc["tag"] += ":external"
+            scs.append(sc)
+        sc = ka_scenario(iv, to, [1, to - 1, 1])
+        sc.update(ext=True, kind="ka-external")
+        sc["tag"] += ":external:responsive"
+        scs.append(sc)
+    real = appcheck.run_real_many(scs)
+    for sc, r in zip(scs, real):
+        pings, rep = [], None
+        for it in r["trace"].split(";") if r["trace"] else []:
+            t, _, rest = it.partition(":")
+            if rest.startswith("wrote:9:"):
+                pings.append(int(t))
+            elif rep is None and ("eTIMEOUT" in rest or (rest.startswith("raised:") and "TIMEOUT" in rest)):
+                rep = int(t)
+        pongs = pongs_of(sc)
+        unanswered = [p for p in pings if not any(p < q <= p + sc["to"] for q in pongs)]
+        ctx.case(key=sc["tag"], nontrivial=bool(pings), cls="ka-external:" + ("reported" if rep is not None else "quiet"),
+                 sample={"scenario": sc, "pings": pings, "report": rep} if len(ctx.samples) < 14 else None)
+        if unanswered and unanswered[0] + 2 * sc["to"] <= sc["horizon"] and (rep is None or rep > unanswered[0] + 2 * sc["to"]):
+            ctx.violate("detect", ("never-reported" if rep is None else "reported-late") + "@iv>2to@external-dispatcher", sc,
+                        f"the silence after the ping at {unanswered[0]} is noticed by {unanswered[0] + 2 * sc['to']}",
+                        f"pings={pings} pongs={pongs} report={rep}", size=appcheck.size_of(sc))
+        if not unanswered and rep is not None:
+            ctx.violate("no-false-positive", "reported-although-every-ping-was-answered@external-dispatcher", sc, "never reported",
+                        f"pings={pings} pongs={pongs} report={rep}", size=appcheck.size_of(sc))
+
+
 def run_keepalive(ctx, scs):
     if not scs:
         return
@@ -233,6 +270,13 @@ def scenarios(ctx):
                 for sched in ("", "1", "01"):
                     scs.append(ka_scenario(iv, to, lats, sched=sched, ssl=True, coalesce=co,
                                            tail_responsive=lats[-1] is not INF))
+    # every pong comes back LATER than the timeout but before the next ping (iv > 2*to, fractional pairs so that no
+    # select wake-up falls between ping + to and the pong): the first late pong is an unanswered ping
+    for iv, to in ((4813, 2048), (5325, 2048), (819, 307), (10240, 3072)):
+        late = to + to * 15 // 100
+        for lats in ([late, late, late], [1, late, late], [late, 1, 1]):
+            for sched in ("", "1", "01"):
+                scs.append(ka_scenario(iv, to, lats, sched=sched))
     # fractional settings, random mixtures
     n = 400 if ctx.thorough() else 100
     for _ in range(n):
@@ -312,6 +356,7 @@ def run(ctx):
         run_keepalive(ctx, [d["input"]])
     run_keepalive(ctx, scenarios(ctx))
     run_stall(ctx)
+    run_external(ctx)
     lifecycle(ctx)
 
 
